@@ -17,6 +17,16 @@ CHECKS = {
   text="Model checking by trace validation: after every public call TLC evaluates the wire expression of every returned or in-place changed secret object (and of the active guard and LinComb.ONE) on the recorded witness and compares it with the reported value mod p; includes false-guard and ignore_errors modes.",
   note="Same bounds and trusted base as C01.",
   design="5/C04"),
+ "C02": dict(
+  technique="TLC exhaustive adversarial-witness search (Soundness.tla, Inv_Unique) over constraint systems captured from the real code in small prime fields",
+  text="Model checking: for each value-returning operation (operators, comparisons, checks, bit decomposition, selection incl. lazily evaluated branches, array get/set at a secret index, fixed-point ops; secret/secret, secret/const, const/secret; unguarded and under a true guard) the R1CS the real code emitted is handed to TLC with operands fixed and every wire the call allocated free; TLC enumerates all P values per wire with constraint pruning and checks that every accepted witness yields the honest result and 0/1 for booleans. Exhaustive in the small field.",
+  note="Per-operation (composition assumed for programs); fields P=67/257/1031 with no-wrap margin, division-based families in P=13/17; uniform-in-the-field assumption for transfer to 254-bit primes. Known findings (quotient unconstrained; bitwise-with-constant free) are characterised exactly in spec/KnownDeviations.tla and anything outside is reported.",
+  design="5/C02"),
+ "C03": dict(
+  technique="TLC adversarial-witness search (Soundness.tla, Inv_Enforced/Inv_EnforcedFree/Inv_Complete/Inv_SameRel) on captured constraint systems, three-way agreement with PyRef!Rel and observed run-time acceptance",
+  text="Model checking: every assertion kind x operand kinds x boundary-straddling values x widths is captured with error checks off and paired with the run-time verdict of the same call; TLC computes the reference relation, searches all completions (unsatisfiable when false, honest witness satisfies when true and accepted, acceptance == relation). A free-operand variant makes the operand wires adversarial too, so one instance covers every operand value of the field.",
+  note="Small prime fields (13, 37, 67, 257); relation on residues for the free-operand variant; per-assertion.",
+  design="5/C03"),
 }
 
 NOT_YET = "check not built yet in this round (planned, see DESIGN.md section 5)"
